@@ -3,6 +3,7 @@ import PharmpyModel.C02.Lcs
 import PharmpyModel.C02.Advan
 import PharmpyModel.C02.PkConv
 import PharmpyModel.C02.Record
+import PharmpyModel.C02.Dose
 open Pharmpy Pharmpy.C02
 
 def bad : Sexp := .list [.atom "err", .atom "bad-op"]
@@ -70,8 +71,47 @@ def optBoolS : Option Bool → Sexp
   | none => .list [.atom "err", .atom "ValueError"]
   | some b => Sexp.ofBool b
 
+def attr? : Sexp → Option Attr
+  | .list [.atom "neutral"] => some .neutral
+  | .list [.atom "sym", .atom s] => some (.sym s)
+  | .list [.atom "other", .atom s] => some (.other s)
+  | _ => none
+
+def attrS : Attr → Sexp
+  | .neutral => .list [.atom "neutral"]
+  | .sym s => .list [.atom "sym", .atom s]
+  | .other s => .list [.atom "other", .atom s]
+
+def pk? (x : Sexp) : Option Pk := do
+  let xs ← x.asList?
+  xs.mapM (fun p => match p with
+    | .list [.atom a, .atom b] => some (a, b)
+    | _ => none)
+
+def pkS (pk : Pk) : Sexp := .list (pk.map (fun p => .list [.atom p.1, .atom p.2]))
+
 def handle (req : Sexp) : Sexp :=
   match req with
+  | .list [.atom "updatebio", n, bio, pk] =>
+    match n.asNat?, attr? bio, pk? pk with
+    | some n, some bio, some pk =>
+      let c : DComp := ⟨n, bio, .neutral⟩
+      let r := updateBioOne c pk
+      .list [attrS r.1.bio, pkS r.2, Sexp.ofBool (decide (BioConsistent r.1 r.2))]
+    | _, _, _ => bad
+  | .list [.atom "updatelag", old, lag, pk] =>
+    match attr? old, attr? lag, pk? pk with
+    | some old, some lag, some pk =>
+      let c : DComp := ⟨1, .neutral, lag⟩
+      let r := updateLag old c pk
+      .list [attrS r.1.lag, pkS r.2, Sexp.ofBool (decide (LagConsistent r.1 r.2))]
+    | _, _, _ => bad
+  | .list [.atom "consistent", n, bio, lag, pk] =>
+    match n.asNat?, attr? bio, attr? lag, pk? pk with
+    | some n, some bio, some lag, some pk =>
+      let c : DComp := ⟨n, bio, lag⟩
+      .list [Sexp.ofBool (decide (BioConsistent c pk)), Sexp.ofBool (decide (LagConsistent c pk))]
+    | _, _, _, _ => bad
   | .list [.atom "diff", o, n] =>
     match ints? o, ints? n with
     | some o, some n => opsS (diff o n)
